@@ -44,4 +44,48 @@ PROPS = {
             'precondition of insert taken from the property quantifier: the pid is fresh or belongs to a job that is not alive',
         ],
     },
+    'C11': {
+        'v_units': ['trap'],
+        'k_units': [],
+        'level': 'proof',
+        'explanation': (
+            'Contract-based deductive verification (Verus/Z3) of the per-signal trap state machine '
+            '(yash-env/src/trap/state.rs: GrandState::set_action, set_internal_disposition, enter_subshell, ignore, '
+            'insert_from_system_if_vacant, mark_as_caught, handle_if_caught), extracted on every run with `async`/`.await` '
+            'stripped. Each operation is proved, from EVERY state satisfying the invariant "installed disposition = '
+            'max(internal disposition, disposition of the user action)", to re-establish it against a model of the '
+            'system interface that records the installed disposition per signal; a signal ignored on entry can be neither '
+            'trapped nor reset without override; failing calls change nothing; the pending flag is set by a catch and a take '
+            'returns the state iff it was set and clears it. Because every operation preserves the invariant from every '
+            'state, it holds after every sequence of operations (induction over histories), for every signal. Not decided: '
+            'TrapSet-level dispatch (KILL/STOP refusal, iteration over all signals), and WHEN traps run (command boundary, '
+            'interrupted wait): that is scheduling of the async read-eval loop.'),
+        'trusted_base': ['Verus 0.2026.09.13 + Z3', 'vstd model of map entries (hash_map::Entry, used in place of btree_map::Entry)',
+                         '/verif/tools/vextract.py'],
+        'assumptions': [
+            'SignalSystem is replaced by a synchronous model trait whose set_disposition takes &mut self, returns the previous disposition and installs the new one for that signal only (assumed contract of the OS side)',
+            'await points are dropped: awaited futures complete immediately and nothing else runs in between',
+            'btree_map::Entry has the same contract as hash_map::Entry (vstd specifies only the latter)',
+            'derived PartialEq is structural equality and derived Ord follows declaration order (Default < Ignore < Catch)',
+            'source::Location is an opaque placeholder type; thiserror\'s #[from] expansion is written out by hand',
+        ],
+    },
+    'C08': {
+        'v_units': ['trap'],
+        'k_units': [],
+        'level': 'proof',
+        'explanation': (
+            'Only the last sentence of C08 is decided: on subshell entry a trap with a command action is reset to default '
+            '(origin Subshell, pending cleared) and its previous state remembered as the parent state, an ignored signal '
+            'stays ignored, the Ignore option forces ignore, and the installed disposition follows -- proved by Verus as the '
+            'postcondition of GrandState::enter_subshell / GrandState::ignore (unit trap, shared with C11). Isolation of '
+            'variables, functions, aliases, options, working directory, umask and descriptors under all interleavings is a '
+            'property of fork/clone of Env and of the simulated process table: no function-level contract reaches it, and '
+            'it is NOT decided by this check.'),
+        'trusted_base': ['Verus 0.2026.09.13 + Z3', '/verif/tools/vextract.py'],
+        'assumptions': [
+            'same as C11 (model SignalSystem, stripped async, hash_map::Entry contract, derived PartialEq/Ord)',
+            'TrapSet::enter_subshell (the loop choosing the option per signal) is not under contract',
+        ],
+    },
 }
